@@ -57,6 +57,10 @@ def check(ctx):
     ctx.attempt(_subdivide)
     ctx.attempt(_pass_back_linear)
     ctx.attempt(forward.check_all, module_suffixes=('tract.aliquot_parse', 'tract.tract', 'tract.tract_parse'))
+    from .c07 import _joiners                 # a chain that is not joined ('N/2 of the\nNE/4') parses as overlapping pieces
+    ctx.attempt(_joiners)
+    from .c14 import settings_are_inputs      # depth settings given for one call must not leak into the next
+    ctx.attempt(settings_are_inputs, rule='LOCK')
     ctx.attempt(lockdown, ctx.repo.func('Tract.parse'), only=('qq_depth', 'qq_depth_min', 'qq_depth_max', 'break_halves'))
     ctx.attempt(qq_depth_precedence, ctx.repo.func('Tract.parse'))
     ctx.attempt(keyword_wins_depth)
@@ -295,6 +299,22 @@ def _fixpoint_window(ctx):
         return
     for pos, cmp_ in sites:
         ops = [cmp_.left, cmp_.comparators[0]]
+        # a projection (the length) of the list is not the list: a pass that only
+        # moves components leaves the length alone
+        proj = [o for o in ops if isinstance(o, ast.Call) and dotted(o.func) == 'len']
+        if not proj:
+            for o in ops:
+                if isinstance(o, ast.Name):
+                    srcs = [n.value for n in ast.walk(loop) if isinstance(n, ast.Assign) and norm(n.targets[0]) == o.id]
+                    proj += [v for v in srcs if isinstance(v, ast.Call) and dotted(v.func) == 'len']
+        if proj:
+            movers = sorted({e[3] for e in passes})
+            ctx.violation('FIXPOINT', construct,
+                          f"`{norm(cmp_)}` watches only the LENGTH of the component list: a pass that moves a half past a "
+                          f"quarter ({', '.join(movers)}) changes the list but not its length, so the loop stops while "
+                          f"halves are still behind quarters (chains with two or more quarters before a half)",
+                          key="FIXPOINT|standardize_aliquot_components|length-only", where=common.loc(fi, cmp_))
+            continue
         if not all(isinstance(o, ast.Name) for o in ops):
             ctx.undecided('FIXPOINT', construct, f"`{norm(cmp_)}` does not compare two names")
             continue
